@@ -156,22 +156,21 @@ def make_applier(kind, spec):
     path = write_puml(render_puml(spec))
     Harness.files.append(path)
     r = DiagramRule(should_only_rule=spec["should_only"]).from_file(Path(path))
-    return r.base_module_included_in_module_names() if spec["fq"] else r.with_base_module("q")
+    return r.base_module_included_in_module_names() if spec["fq"] else r.with_base_module(spec.get("base", "q"))
 
 
-class PurityMachine(RuleBasedStateMachine):
-    def __init__(self):
-        super().__init__()
-        self.evs = None
+class History:
+    """Interpreter of a history given as data (so that a shrunk failing history is a replay file): two shared evaluables,
+    a pool of rule objects, steps applied one after the other; after every step the graphs must be unchanged and the
+    outcome must equal that of a freshly built rule on a freshly built evaluable."""
+
+    def __init__(self, graphs):
+        self.graphs = [(list(t), [tuple(e) for e in i]) for t, i in graphs]
+        self.evs = [make_evaluable(t, i) for t, i in self.graphs]
+        self.snaps = [full_snapshot(e) for e in self.evs]
         self.pool = []
         self.history = []
         self.bad = []
-
-    @initialize(i1=RS.import_relation(TREE1, max_edges=10), i2=RS.import_relation(TREE2, max_edges=8))
-    def setup(self, i1, i2):
-        self.graphs = [(TREE1, list(i1)), (TREE2, list(i2))]
-        self.evs = [make_evaluable(t, i) for t, i in self.graphs]
-        self.snaps = [full_snapshot(e) for e in self.evs]
 
     def _fresh(self, kind, spec, which):
         t, i = self.graphs[which]
@@ -185,95 +184,171 @@ class PurityMachine(RuleBasedStateMachine):
             self.bad.append({"sig": f"C15/history-dependent-outcome/{kind}/{how}", "key": {"kind": kind, "how": how},
                              "detail": f"{how} on evaluable {which}: {got} but a fresh rule on a fresh evaluable gives {want}; spec={spec}; history={self.history[-6:]}"})
 
-    @rule(spec=rule_specs(), which=st.integers(0, 1))
-    def new_rule(self, spec, which):
-        ap = make_applier("rule", spec)
-        self.pool.append(("rule", spec, ap))
-        self._apply(ap, "rule", spec, which, "new")
-
-    @rule(spec=layer_specs(), which=st.integers(0, 1))
-    def new_layer_rule(self, spec, which):
-        ap = outcome(lambda: None)
-        try:
-            ap = make_applier("layer", spec)
-        except Exception:  # noqa: BLE001 - builder rejects: nothing to pool
+    def step(self, st_: dict) -> None:
+        op, which = st_["op"], st_.get("which", 0)
+        if op == "new":
+            kind, spec = st_["kind"], st_["spec"]
+            try:
+                ap = make_applier(kind, spec)
+            except Exception:  # noqa: BLE001 - builder rejects: nothing to pool
+                return
+            self.pool.append([kind, spec, ap])
+            self._apply(ap, kind, spec, which, "new")
+        elif op == "both":  # a new rule object applied to one architecture and then to the other
+            kind, spec = st_["kind"], st_["spec"]
+            ap = make_applier(kind, spec)
+            self.pool.append([kind, spec, ap])
+            self._apply(ap, kind, spec, which, "new")
+            self._apply(ap, kind, spec, 1 - which, "reapply")
+        elif not self.pool:
             return
-        self.pool.append(("layer", spec, ap))
-        self._apply(ap, "layer", spec, which, "new")
+        elif op == "reapply":
+            kind, spec, ap = self.pool[st_["idx"] % len(self.pool)]
+            self._apply(ap, kind, spec, which, "reapply")
+        elif op == "retarget":
+            # a pooled DiagramRule object gets another base module (no other call) and is applied again
+            entry = self.pool[st_["idx"] % len(self.pool)]
+            kind, spec, ap = entry
+            if kind != "diagram" or spec["fq"]:
+                return
+            spec2 = dict(spec, base=st_["base"])
+            ap.with_base_module(st_["base"])
+            entry[1] = spec2
+            self._apply(ap, kind, spec2, which, "retarget")
+        elif op == "permuted":
+            kind, spec, _ = self.pool[st_["idx"] % len(self.pool)]
+            if kind == "rule":
+                spec2 = permute_rule(spec, st_["perm"])
+            elif kind == "layer":
+                spec2 = permute_layers(spec, st_["perm"])
+            else:
+                return
+            try:
+                ap = make_applier(kind, spec2)
+            except Exception:  # noqa: BLE001
+                return
+            got = norm(outcome(lambda: ap.assert_applies(self.evs[which])))
+            want = self._fresh(kind, spec, which)
+            self.history.append(("permuted", kind, got[0]))
+            if got != want:
+                self.bad.append({"sig": f"C15/order-dependent-outcome/{kind}", "key": {"kind": kind},
+                                 "detail": f"permuted lists give {got}, original order gives {want}; spec={spec} permuted={spec2}"})
 
-    @rule(spec=diagram_specs(), which=st.integers(0, 1))
-    def new_diagram_rule(self, spec, which):
-        ap = make_applier("diagram", spec)
-        self.pool.append(("diagram", spec, ap))
-        self._apply(ap, "diagram", spec, which, "new")
-
-    @rule(pair=st.sampled_from([("q", "q.a.y"), ("q.a", "q.a.y"), ("q.ab", "q.ab.x"), ("q.c", "q.c.k"), ("q", "q.b.z"), ("q.b", "q.b.z"),
-                                ("q", "q.c.k")]),
-          extra=st.lists(st.sampled_from(ALLN), max_size=1), d=st.sampled_from(["import", "imported"]),
-          kind=st.sampled_from(RS.KINDS), first=st.integers(0, 1))
-    def alias_rule_on_both_architectures(self, pair, extra, d, kind, first):
-        """'anything' alias over a module and a sub module that exists in only one of the two architectures, applied to both."""
-        names = list(dict.fromkeys(list(pair) + extra))
-        spec = {"verb": "should_not", "dir": d, "exc": False, "anything": True,
-                "subj": {"kind": kind, "names": names, "as_str": False}, "obj": None}
-        ap = make_applier("rule", spec)
-        self.pool.append(("rule", spec, ap))
-        self._apply(ap, "rule", spec, first, "new")
-        self._apply(ap, "rule", spec, 1 - first, "reapply")
-
-    @precondition(lambda self: len(self.pool) > 0)
-    @rule(idx=st.integers(0, 10 ** 6), which=st.integers(0, 1))
-    def reapply(self, idx, which):
-        kind, spec, ap = self.pool[idx % len(self.pool)]
-        self._apply(ap, kind, spec, which, "reapply")
-
-    @precondition(lambda self: len(self.pool) > 0)
-    @rule(idx=st.integers(0, 10 ** 6), which=st.integers(0, 1), perm=st.integers(0, 1000))
-    def permuted(self, idx, which, perm):
-        kind, spec, _ = self.pool[idx % len(self.pool)]
-        if kind == "rule":
-            spec2 = permute_rule(spec, perm)
-        elif kind == "layer":
-            spec2 = permute_layers(spec, perm)
-        else:
-            return
-        try:
-            ap = make_applier(kind, spec2)
-        except Exception:  # noqa: BLE001
-            return
-        got = norm(outcome(lambda: ap.assert_applies(self.evs[which])))
-        want = self._fresh(kind, spec, which)
-        self.history.append(("permuted", kind, got[0]))
-        if got != want:
-            self.bad.append({"sig": f"C15/order-dependent-outcome/{kind}", "key": {"kind": kind},
-                             "detail": f"permuted lists give {got}, original order gives {want}; spec={spec} permuted={spec2}"})
-
-    @invariant()
-    def graph_unchanged(self):
-        if self.evs is None:
-            return
+    def check_graphs(self) -> None:
         for i, e in enumerate(self.evs):
             if full_snapshot(e) != self.snaps[i]:
                 self.bad.append({"sig": "C15/evaluable-mutated", "key": {}, "detail": f"evaluable {i} changed after {self.history[-1:]}"})
-        if self.bad:
-            raise AssertionError(self.bad[0]["sig"])
 
-    def teardown(self):
-        st_ = Harness.stats
-        if st_ is not None and self.evs is not None:
-            outs = {h[2] for h in self.history}
-            re = any(h[0] == "reapply" for h in self.history)
-            nontrivial = re and "fail" in outs and "pass" in outs
-            spec = {"type": "history", "steps": [list(h) for h in self.history]}
-            unl = st_.record(spec, {"violations": list(self.bad), "nontrivial": nontrivial,
-                                    "labels": ["history", f"len={min(len(self.history) // 10 * 10, 40)}"] + (["reapplied"] if re else []),
-                                    "distinct_key": [self.graphs, spec]}, enumerated=False)
+    def cleanup(self) -> None:
         for p in Harness.files:
             try:
                 os.unlink(p)
             except OSError:
                 pass
         Harness.files.clear()
+
+
+def check_history(spec: dict) -> dict:
+    """Plain replay of a recorded history (no Hypothesis)."""
+    h = History(spec["graphs"])
+    try:
+        for st_ in spec["steps"]:
+            h.step(st_)
+            h.check_graphs()
+            if h.bad:
+                break
+    finally:
+        h.cleanup()
+    outs = {x[2] for x in h.history}
+    re_ = any(x[0] in ("reapply", "retarget") for x in h.history)
+    return {"violations": list(h.bad[:1]), "nontrivial": re_ and "fail" in outs and "pass" in outs,
+            "labels": ["history", f"len={min(len(h.history) // 10 * 10, 40)}"] + (["reapplied"] if re_ else [])}
+
+
+ALIAS_PAIRS = [("q", "q.a.y"), ("q.a", "q.a.y"), ("q.ab", "q.ab.x"), ("q.c", "q.c.k"), ("q", "q.b.z"), ("q.b", "q.b.z"), ("q", "q.c.k")]
+
+
+class PurityMachine(RuleBasedStateMachine):
+    """Generates histories; every step is recorded as data and executed by History, so the failing history replays."""
+
+    def __init__(self):
+        super().__init__()
+        self.h = None
+        self.steps = []
+
+    @initialize(i1=RS.import_relation(TREE1, max_edges=10), i2=RS.import_relation(TREE2, max_edges=8))
+    def setup(self, i1, i2):
+        self.graphs = [[TREE1, [list(e) for e in i1]], [TREE2, [list(e) for e in i2]]]
+        self.h = History(self.graphs)
+
+    def _do(self, st_):
+        self.steps.append(st_)
+        self.h.step(st_)
+
+    @rule(spec=rule_specs(), which=st.integers(0, 1))
+    def new_rule(self, spec, which):
+        self._do({"op": "new", "kind": "rule", "spec": spec, "which": which})
+
+    @rule(spec=layer_specs(), which=st.integers(0, 1))
+    def new_layer_rule(self, spec, which):
+        self._do({"op": "new", "kind": "layer", "spec": spec, "which": which})
+
+    @rule(spec=diagram_specs(), which=st.integers(0, 1))
+    def new_diagram_rule(self, spec, which):
+        self._do({"op": "new", "kind": "diagram", "spec": spec, "which": which})
+
+    @rule(pair=st.sampled_from(ALIAS_PAIRS), extra=st.lists(st.sampled_from(ALLN), max_size=1), d=st.sampled_from(["import", "imported"]),
+          kind=st.sampled_from(RS.KINDS), first=st.integers(0, 1))
+    def alias_rule_on_both_architectures(self, pair, extra, d, kind, first):
+        """'anything' alias over a module and a sub module that exists in only one of the two architectures, applied to both."""
+        names = list(dict.fromkeys(list(pair) + extra))
+        spec = {"verb": "should_not", "dir": d, "exc": False, "anything": True,
+                "subj": {"kind": kind, "names": names, "as_str": False}, "obj": None}
+        self._do({"op": "both", "kind": "rule", "spec": spec, "which": first})
+
+    @rule(spec=st.one_of(rule_specs(), layer_specs().map(lambda s: ("layer", s)), diagram_specs().map(lambda s: ("diagram", s))), first=st.integers(0, 1))
+    def new_rule_on_both_architectures(self, spec, first):
+        kind, sp = spec if isinstance(spec, tuple) else ("rule", spec)
+        self._do({"op": "both", "kind": kind, "spec": sp, "which": first})
+
+    @precondition(lambda self: self.h is not None and len(self.h.pool) > 0)
+    @rule(idx=st.integers(0, 10 ** 6), which=st.integers(0, 1))
+    def reapply(self, idx, which):
+        self._do({"op": "reapply", "idx": idx, "which": which})
+
+    @precondition(lambda self: self.h is not None and any(k == "diagram" and not sp["fq"] for k, sp, _ in self.h.pool))
+    @rule(idx=st.integers(0, 10 ** 6), which=st.integers(0, 1), base=st.sampled_from(["q", "q.a", "q.c", "zz"]))
+    def retarget_diagram(self, idx, which, base):
+        cands = [i for i, (k, sp, _) in enumerate(self.h.pool) if k == "diagram" and not sp["fq"]]
+        self._do({"op": "retarget", "idx": cands[idx % len(cands)], "which": which, "base": base})
+
+    @precondition(lambda self: self.h is not None and len(self.h.pool) > 0)
+    @rule(idx=st.integers(0, 10 ** 6), which=st.integers(0, 1), perm=st.integers(0, 1000))
+    def permuted(self, idx, which, perm):
+        self._do({"op": "permuted", "idx": idx, "which": which, "perm": perm})
+
+    @invariant()
+    def graph_unchanged(self):
+        if self.h is None:
+            return
+        self.h.check_graphs()
+        if self.h.bad:
+            raise AssertionError(self.h.bad[0]["sig"])
+
+    def teardown(self):
+        st_ = Harness.stats
+        if st_ is not None and self.h is not None:
+            h = self.h
+            outs = {x[2] for x in h.history}
+            re_ = any(x[0] in ("reapply", "retarget") for x in h.history)
+            nontrivial = re_ and "fail" in outs and "pass" in outs
+            spec = {"type": "history", "check": "check_history", "graphs": self.graphs, "steps": self.steps}
+            st_.record(spec, {"violations": list(h.bad[:1]), "nontrivial": nontrivial,
+                              "labels": ["history", f"len={min(len(h.history) // 10 * 10, 40)}"] + (["reapplied"] if re_ else [])
+                              + (["retargeted-diagram"] if any(x[0] == "retarget" for x in h.history) else [])},
+                       enumerated=False, sample=(len(self.steps) <= 6))
+        if self.h is not None:
+            self.h.cleanup()
 
 
 def machine_shard(arg, stt, deadline) -> None:
@@ -489,7 +564,7 @@ def check_case(spec: dict) -> dict:
     if spec.get("type") == "order":
         return check_order_case(spec)
     if spec.get("type") == "history":
-        return {"violations": [], "nontrivial": False, "labels": ["history-replay-not-supported: rerun with the same VERIF_SEED"]}
+        return check_history(spec)
     return check_batch_case(spec)
 
 
